@@ -74,12 +74,13 @@ def extract(repo):
         raise ValueError("`if( Nullable() ) ... else if( !strict )` not found")
     sev_nullable = m.group(1)
     lenient = pre[m.end():]
-    cases = []
-    for cm in re.finditer(r"case\s+(\w+)_TYPE\s*:\s*\{\s*fillerValue\s*=\s*\"((?:[^\"\\]|\\.)*)\"\s*;\s*([^}]*?)break\s*;\s*\}", lenient):
-        kind, filler, action = cm.group(1), cm.group(2), cm.group(3).strip()
-        rm = re.match(r"(Read\w+)\(\s*\*\(\s*ptr\.\w+\s*\)\s*,\s*fillerValue\.c_str\(\)\s*,\s*&err\s*,\s*\"((?:[^\"\\]|\\.)*)\"\s*\)\s*;$", action)
+    cases, errvar = [], "err"
+    for cm in re.finditer(r"case\s+(\w+)_TYPE\s*:\s*\{\s*(\w+)\s*=\s*\"((?:[^\"\\]|\\.)*)\"\s*;\s*([^}]*?)break\s*;\s*\}", lenient):
+        kind, var, filler, action = cm.group(1), cm.group(2), cm.group(3), cm.group(4).strip()
+        rm = re.match(r"(Read\w+)\(\s*\*\(\s*ptr\.\w+\s*\)\s*,\s*" + var + r"\.c_str\(\)\s*,\s*&(\w+)\s*,\s*\"((?:[^\"\\]|\\.)*)\"\s*\)\s*;$", action)
         if rm:
-            cases.append((kind, filler, rm.group(1), rm.group(2)))
+            cases.append((kind, filler, rm.group(1), rm.group(3)))
+            errvar = rm.group(2)
             continue
         am = re.match(r"\*\(\s*ptr\.S\s*\)\s*=\s*\"((?:[^\"\\]|\\.)*)\"\s*;$", action)
         if am:
@@ -92,7 +93,7 @@ def extract(repo):
     if not m:
         raise ValueError("default case of the lenient switch not found")
     sev_default = m.group(1)
-    m = re.search(r"if\s*\(\s*err\.severity\(\)\s*<=\s*(SEVERITY_\w+)\s*\)\s*\{\s*_error\.severity\(\s*(SEVERITY_\w+)\s*\)\s*;", lenient)
+    m = re.search(r"if\s*\(\s*" + errvar + r"\.severity\(\)\s*<=\s*(SEVERITY_\w+)\s*\)\s*\{\s*_error\.severity\(\s*(SEVERITY_\w+)\s*\)\s*;", lenient)
     if not m:
         raise ValueError("filler failure test not found")
     fail_thr, sev_fail = m.group(1), m.group(2)
